@@ -3,9 +3,9 @@
    [GenDevInfo.code], the record gen/gen_devinfo.py regenerates on every run from
    pymodbus/mei_message.py, device.py, constants.py and pdu.py.  Identities are arbitrary
    functions object id -> byte string. *)
-From PM.theories Require Import Base Expr DevInfo.
+From PM.theories Require Import Base Expr DevInfo DevInfoMulti.
 From PM.Generated Require Import GenDevInfo.
-From PM.proofs Require Import DevInfo_proofs.
+From PM.proofs Require Import DevInfo_proofs DevInfoMulti_proofs.
 Open Scope list_scope.
 Open Scope Z_scope.
 
@@ -93,6 +93,52 @@ Print Assumptions C20_245_unsatisfiable.
 Theorem C20_read_code_0_refuted : forall idn oid, 0 <= oid <= 255 -> execute code idn 0 oid = Raise KeyError.
 Proof. exact read_code_0_raises. Qed.
 Print Assumptions C20_read_code_0_refuted.
+
+(* ====== list-valued (multi-item) entries and str values: the extended model DevInfoMulti.v ====== *)
+
+(* on single-valued byte-string identities the extended server IS the server above, so every
+   theorem of this file applies to the extended model there *)
+Theorem C20_multi_conservative : forall idn c oid,
+  mserver_reply code (lift_identity idn) c oid = server_reply code idn c oid.
+Proof. exact multi_conservative. Qed.
+Print Assumptions C20_multi_conservative.
+
+(* completeness over multi-valued identities, kept visible; it is FALSE *)
+Definition C20_multi_full_statement : Prop := forall idn c oid,
+  (c = 1 \/ c = 2 \/ c = 3) -> oid = 0 ->
+  exists fuel rs, mchain code idn c oid fuel = (rs, ChainDone) /\ received rs = mexpected idn c oid.
+
+Theorem C20_multi_refuted : ~ C20_multi_full_statement.
+Proof. exact multi_full_statement_refuted. Qed.
+Print Assumptions C20_multi_refuted.
+
+(* a two-item list split after its first item is continued from its FIRST item: the client
+   receives that item twice *)
+Theorem C20_multi_resend_refuted :
+  exists rs, mchain code resend_identity 3 0 5 = (rs, ChainDone)
+    /\ received rs = [(0, repeat 86%N 100); (128, repeat 97%N 100); (128, repeat 97%N 100); (128, repeat 98%N 100)]
+    /\ mexpected resend_identity 3 0 = [(0, repeat 86%N 100); (128, repeat 97%N 100); (128, repeat 98%N 100)].
+Proof. exact multi_resend. Qed.
+Print Assumptions C20_multi_resend_refuted.
+
+(* a list that alone is larger than a page: the same leading items, more-follows, forever *)
+Theorem C20_multi_loop_refuted : forall fuel,
+  mchain code loop_identity 3 0 fuel = (repeat loop_response fuel, ChainOutOfFuel).
+Proof. exact multi_loop. Qed.
+Print Assumptions C20_multi_loop_refuted.
+
+(* str values: the accounting sees len() = 200, the wire carries 400 bytes: a 409-byte PDU *)
+Theorem C20_text_bound_refuted :
+  exists pdu, mserver_reply code text_identity 1 0 = Ok pdu /\ Z.of_nat (length pdu) = 409 /\ 409 > max_pdu.
+Proof. exact text_bound_refuted. Qed.
+Print Assumptions C20_text_bound_refuted.
+
+(* the bound holds for every identity - multi-item lists included - whose items have
+   len() = encoded length (bytes, ASCII text) *)
+Theorem C20_text_bound_partial : forall idn c oid pdu,
+  maccurate idn -> mserver_reply code idn c oid = Ok pdu -> Z.of_nat (length pdu) <= max_pdu.
+Proof. exact text_bound_partial. Qed.
+Print Assumptions C20_text_bound_partial.
 
 Example C20_nonvacuous :
   let idn := id_of [(0, repeat 86%N 200); (1, repeat 80%N 100); (2, repeat 49%N 3); (5, [77%N])] in
